@@ -17,7 +17,11 @@ RULE = (
     "trailing text, dead end) must make Schema() raise. match_fragment is cross-checked on real "
     "fragments. distinct = (alphabet, tree size, root operator, number of automaton states, outcome)."
 )
-ASSUMPTIONS = ["ranges {n,m} are generated with n <= m (upstream does not define the other case)"]
+ASSUMPTIONS = [
+    "ranges {n,m} are generated with n <= m (upstream does not define the other case)",
+    "a RecursionError from Schema() is tolerated (counted) only when the expression's minimal automaton has >= 100 states "
+    "(CPython's recursion limit as a resource bound); expressions whose reference automaton exceeds 3000 states are skipped",
+]
 STRIDES = {"quick": 64, "thorough": 512}
 MAXSIZE = {"quick": 4, "thorough": 5}
 NRANDOM = {"quick": 1500, "thorough": 60000}
@@ -55,6 +59,14 @@ def check_expr(ctx, ast, alphabet, rnd, exhaustive):
         else:
             ctx.violation("accepted-malformed", "Schema() accepted content expression %r that must be rejected (%s)" % (expr, rs), det, {"reason": str(rs).split(" in ")[0][:30]})
         return
+    if lib_rejects and isinstance(S, RecursionError):
+        from ..refschema import reachable
+        nst = len(reachable(rs.nodes["x"].regex))
+        if nst >= 100:
+            # interpreter resource limit on an automaton with hundreds of (minimal) states:
+            # counted, not judged (a RecursionError on a small automaton is judged)
+            ctx.count("expressions_skipped_recursion_limit_on_huge_automaton")
+            return
     if lib_rejects:
         ctx.violation("rejected-wellformed", "Schema() raised %s: %s for the well-formed expression %r" % (type(S).__name__, S, expr), det,
                       {"exc": type(S).__name__})
